@@ -1,4 +1,5 @@
 """C06 - A Strict writer only ever emits lines that a Strict reader accepts."""
+import json
 import os
 import sys
 
@@ -171,6 +172,9 @@ def corpus():
     c["hit"] = [i]
     c["stream"] = "corpus"
     out.append(c)
+    # the same finding through a sorting writer: accepted at +=, close() raises
+    out.append({"kind": "writeseq", "annot": "gdc-1.0.0", "records": [{"slots": json.loads(json.dumps(c["slots"])), "stream": "class1", "hit": [i]}],
+                "sort": True, "mode": 1, "stream": "seq-sort", "hit": [0]})
     return out
 
 
